@@ -1,11 +1,14 @@
 """C04 — JSON / dict round trip."""
-AREAS = ["time"]
+AREAS = ["time", "jsonscalar"]
 LEVEL = "other"
 EXPLANATION = (
     "Bounded: from_dict(to_dict(m)) / from_json(to_json(m)) on the stand-in corpus (all kinds, maps of every key kind, "
-    "wrappers, oneofs, optionals, both casings, classmethod and instance form). Deductive part: the Timestamp / Duration "
-    "converters feeding the JSON forms (time area). to_dict/_from_dict_init themselves use comprehensions, json, base64 and "
-    "dateutil and are outside the proved subset.")
+    "wrappers, oneofs, optionals, both casings, classmethod and instance form). Deductive part: the per-kind links - _scalar_to_json / "
+    "_scalar_from_json / _map_key_from_json / _dump_float / _parse_float against the proto3 JSON mapping spec (spec/jsonmap.py) "
+    "with the lemmas JSON_SCALAR_ROUNDTRIP and JSON_KEY_ROUNDTRIP (reading the canonical form of a well-typed scalar / map key "
+    "gives it back, under the assumed codec laws int(str(n)) == n and b64decode(b64encode(b)) == b), and the Timestamp / Duration "
+    "converters feeding the JSON forms (time area). The composition over fields in to_dict/_from_dict_init (which use comprehensions, json, base64 and "
+    "dateutil) is outside the proved subset and decided by the bounded stand-in.")
 ASSUMED = ["to_dict / _from_dict_init are not under contract: bounded stand-in only"]
 from pyvc.check import standin_bounded
 BOUNDED = [standin_bounded("C04")]
